@@ -86,6 +86,18 @@ func genExpr(r *Rng, depth int, want byte, nenv int) map[string]any {
 				break
 			}
 		}
+		// string functions with a pattern that does occur in the subject (multi-byte characters included)
+		if (f.name == "contains" || f.name == "starts-with" || f.name == "substring-before" || f.name == "substring-after" || f.name == "translate") && r.Chance(45) {
+			subj := []rune(pick(r, []string{"10€20", "a°b°c", "日本語テキスト", "x→y→z", "naïve café", "a😀b😀c", "abcabc", "é", "€€", "key=värde"}))
+			i := r.Intn(len(subj))
+			j := i + 1 + r.Intn(len(subj)-i)
+			pat := string(subj[i:j])
+			args := []any{map[string]any{"t": "lit", "s": string(subj), "q": r.Intn(2)}, map[string]any{"t": "lit", "s": pat, "q": r.Intn(2)}}
+			if f.name == "translate" {
+				args = append(args, map[string]any{"t": "lit", "s": pick(r, []string{"", "X", "→ü", "12345"}), "q": r.Intn(2)})
+			}
+			return map[string]any{"t": "call", "f": f.name, "args": args}
+		}
 		args := []any{}
 		for i := 0; i < len(f.args); i++ {
 			w := f.args[i]
